@@ -243,8 +243,17 @@ def history(sx, ntrans, retries, A, with_main, stop_at, fw="twisted"):
     main = env.main_fn(main_calls)
     comp = env.component(transports=cfg, realm="realm1", is_fatal=is_fatal, main=main if with_main else None)
     comp.log = NULLLOG
-    for ev in ("connect", "join", "ready", "leave", "disconnect"):
-        comp.on(ev, (lambda ev: (lambda *a, **k: events.append(ev)))(ev))
+    # listeners with the documented signatures (what is fired, and how - positionally or by keyword - is part of the interface)
+    was_clean_seen = []
+    comp.on("connect", lambda session, protocol: events.append("connect"))
+    comp.on("join", lambda session, details: events.append("join"))
+    comp.on("ready", lambda session: events.append("ready"))
+    comp.on("leave", lambda session, details: events.append("leave"))
+
+    def on_disconnect(session, was_clean):
+        events.append("disconnect")
+        was_clean_seen.append(was_clean)
+    comp.on("disconnect", on_disconnect)
     done = []
     env.start(comp, done)
     ser = JsonSerializer()
